@@ -13,7 +13,14 @@ PLAN = dict(
     explanation="theorems: hash sets of linearization matter only by membership; ordered sets of the back ends are insertion-order independent; "
                 "the sorted lists of type instances emitted by the checker are a function of the SET of instances (any enumeration order of the instance table, "
                 "any order in which definitions created the instances; every accepted program's lists are strictly sorted by String::cmp); "
-                "process-level determinism is observed, the harness computes the verdict and the model runner relays it",
-    assumptions=["fresh processes get fresh std hash seeds (RandomState)", "label renumbering in the comparison is the property's own allowance"],
+                "round 2: the label counter only renumbers labels - translate / compile / the complete routines of all three back ends started at "
+                "counter c2 equal the run started at c1 with every generated label lab<k>, <Type>_<k>, <Type>_<k>_<Xtor> renamed to k - c1 + c2 by a "
+                "FUNCTION on label texts (same errors, final counter shifted; C17_translate_shift, C17_*_compile_shift), under renaming_guard (the "
+                "name-digits guard of C14); refuted without it; renumbering to base 0 is a normal form (C17_normal_form) and the first-occurrence "
+                "numbering used by the run-time comparison is invariant under the shift (C17_first_occurrence_numbering_*). Process-level determinism "
+                "is observed, the harness computes the verdict and the model runner relays it",
+    assumptions=["fresh processes get fresh std hash seeds (RandomState)", "label renumbering in the comparison is the property's own allowance",
+                 "the tokenisation of printed assembly by normalize_labels is not modelled; it renumbers every all-digit `_` component of an upper-case word, so a "
+                 "program whose type / xtor names embed numbers equal to generated label numbers of one run but not the other can raise a false alarm (never a miss)"],
     trusted=["harness/src/cmd_det.rs (comparison and label normalisation)"],
 )
